@@ -967,6 +967,7 @@ get_trait(has_traits_object *obj, PyObject *name, int instance)
         Py_ssize_t n = PyList_GET_SIZE(notifiers);
         itrait->notifiers = inotifiers = (PyListObject *)PyList_New(n);
         if (inotifiers == NULL) {
+            Py_DECREF(itrait);
             return NULL;
         }
 
@@ -985,6 +986,7 @@ get_trait(has_traits_object *obj, PyObject *name, int instance)
     }
 
     /* Otherwise, indicate that an error ocurred updating the dictionary: */
+    Py_DECREF(itrait);
     return NULL;
 }
 
